@@ -126,8 +126,13 @@ class LCDDocFilter(DocumentFilter):
 
     style_filter.process_initial_values(doc)
 
+    # tts:position only applies to regions, where it is resolved into tts:origin below
+
+    content_supported_styles = dict(supported_styles)
+    del content_supported_styles[StyleProperties.Position]
+
     if doc.get_body() is not None:
-      style_filter.process_element(doc.get_body())
+      SupportedStylePropertiesFilter(content_supported_styles).process_element(doc.get_body())
 
     # clean-up animations
 
